@@ -744,6 +744,50 @@ def _push(b: bytes) -> bytes:
     return (bytes([len(b)]) if len(b) < 76 else b"\x4c" + bytes([len(b)])) + b
 
 
+def _boundary_s(ctx: Ctx) -> Op:
+    """An output that is OP_CHECKSIG alone, spent with <sig> <key> in the script_sig: the legacy digest does not
+    depend on the key, so a signature with a CHOSEN s -- the two sides of the low-s boundary, 1, n - 1 -- is made
+    valid by recovering the key it verifies under. What the engine does with a high s depends on LOW_S, and must
+    not depend on the arm."""
+    from btclib.curves import double_mult_var, mult  # noqa: PLC0415
+    from btclib.script import sig_hash  # noqa: PLC0415
+    from btclib.script.engine import verify_input, verify_transaction  # noqa: PLC0415
+    from btclib.script.engine.flags import ALL_FLAGS, ScriptFlag  # noqa: PLC0415
+    from btclib.tx.out_point import OutPoint  # noqa: PLC0415
+    from btclib.tx.tx import Tx  # noqa: PLC0415
+    from btclib.tx.tx_in import TxIn  # noqa: PLC0415
+    from btclib.tx.tx_out import TxOut  # noqa: PLC0415
+
+    ch = ctx.ch
+    n = H.N
+    tx = Tx(2, 0, [TxIn(OutPoint(ch.nbytes(32, "eng.txid"), ch.draw(3, "eng.vout")), b"", 0xFFFFFFFD)], [TxOut(500, b"\x00\x14" + ch.nbytes(20, "eng.dest"))])
+    ht = ch.pick([1, 2, 3, 0x81], "eng.ht")
+    h = int.from_bytes(sig_hash.legacy(b"\xac", tx, 0, ht), "big")
+    cls, s_ = ch.pick([("s-largest-low", n // 2), ("s-smallest-high", n // 2 + 1), ("s-below-boundary", n // 2 - 1), ("s-one", 1), ("s-n-minus-one", n - 1), ("s-uniform", 0)], "eng.s")
+    if not s_:
+        s_ = H.uniform_scalar(ch, "eng.s.value")
+    R = mult(H.uniform_scalar(ch, "eng.k"))
+    r = R[0] % n
+    r_inv = pow(r, -1, n)
+    Q = double_mult_var(s_ * r_inv % n, R, -h * r_inv % n, mult(1))  # the key (r, s) verifies h under
+    pk = H.sec(Q, bool(ch.draw(2, "eng.compressed")))
+
+    def integer(v: int) -> bytes:
+        b = v.to_bytes((v.bit_length() + 8) // 8, "big")
+        return b"\x02" + bytes([len(b)]) + b
+
+    body = integer(r) + integer(s_)
+    tx.vin[0].script_sig = _push(b"\x30" + bytes([len(body)]) + body + bytes([ht])) + _push(pk)
+    flag_name, flags = ch.pick([
+        ("default", None), ("none", ScriptFlag(0)), ("no-low-s", ALL_FLAGS & ~ScriptFlag.LOW_S), ("low-s-only", ScriptFlag.LOW_S),
+        ("consensus", ScriptFlag.P2SH | ScriptFlag.DERSIG | ScriptFlag.WITNESS | ScriptFlag.NULLDUMMY), ("strictenc", ScriptFlag.STRICTENC | ScriptFlag.DERSIG),
+    ], "eng.flags")
+    prevouts = [TxOut(1000, b"\xac")]
+    if ch.draw(4, "eng.whole-tx") == 0:
+        return Op("engine.verify_transaction.bare-checksig", cls, lambda: verify_transaction(prevouts, tx, flags), note=f"flags={flag_name} ht={ht}")
+    return Op("engine.verify_input.bare-checksig", cls, lambda: verify_input(prevouts, tx, 0, flags), note=f"flags={flag_name} ht={ht}")
+
+
 def g_engine(ctx: Ctx) -> Op:
     from btclib.ecc import dsa, ssa  # noqa: PLC0415
     from btclib.hashes import hash160  # noqa: PLC0415
@@ -757,7 +801,9 @@ def g_engine(ctx: Ctx) -> Op:
     from btclib.tx.tx_out import TxOut  # noqa: PLC0415
 
     ch = ctx.ch
-    kind = ch.pick(["p2wpkh", "p2pkh", "p2tr"], "eng.kind")
+    kind = ch.pick(["p2wpkh", "p2pkh", "p2tr", "bare-checksig"], "eng.kind")
+    if kind == "bare-checksig":
+        return _boundary_s(ctx)
     q = H.uniform_scalar(ch, "eng.q")
     Q = H.mult(q)
     amount = 1000 + ch.draw(10**8, "eng.amount")
